@@ -66,6 +66,7 @@ class PathCtx:
         self.local = []       # stack of local decision frames (sub-exploration)
         self.nchecks = 0
         self.nofork = 0
+        self.summary = []
         for ax in run.lib_axioms:
             self._add(ax)
 
@@ -159,11 +160,70 @@ class PathCtx:
     def scope(self):
         return _Scope(self)
 
-    def decide(self, cond, label, node=None):
-        """a safety condition: True = holds on this path, False = the exceptional path"""
+    def explore_local(self, thunk):
+        """enumerate the paths through `thunk` (a piece of code executed under the current path condition) without
+        forking the enclosing path: returns [(extra conditions, outcome, value)]; state changes of thunk must be
+        confined by the caller."""
+        from .interp import _Continue, _Break, _Return
+        results = []
+        work = [[]]
+        guard = 0
+        while work:
+            guard += 1
+            if guard > 256:
+                raise CheckerError("too many paths through a loop body / element expression")
+            prefix = work.pop()
+            frame = {"decisions": list(prefix), "n": 0, "work": work}
+            self.local.append(frame)
+            mark = len(self.pc)
+            self.solver.push()
+            self.qf.push()
+            try:
+                try:
+                    v = thunk()
+                    results.append((list(self.pc[mark:]), "normal", v))
+                except _Continue:
+                    results.append((list(self.pc[mark:]), "continue", None))
+                except _Break:
+                    results.append((list(self.pc[mark:]), "break", None))
+                except _Return as r:
+                    results.append((list(self.pc[mark:]), "return", r.value))
+                except PyRaise as e:
+                    results.append((list(self.pc[mark:]), "raise", e))
+                except PathEnd:
+                    pass
+            finally:
+                self.solver.pop()
+                self.qf.pop()
+                del self.pc[mark:]
+                self.local.pop()
+        return results
+
+    def decide(self, cond, exc, node=None):
+        """a safety condition guarding an implicit exception `exc`: True = holds on this path, False = the
+        exceptional path.  When the exceptional side is infeasible the obligation safe.<exc>@L<line> is recorded as
+        discharged here (so that the set of obligation ids does not depend on solver timing)."""
+        name = "%s@L%s" % (exc, getattr(node, "lineno", "?"))
         if self.nofork:
-            self.oblige("safe", "%s@L%s" % (label, getattr(node, "lineno", "?")), wrap(cond), node)
+            self.oblige("safe", name, wrap(cond), node)
             return True
+        cond = z3.simplify(cond)
+        if z3.is_true(cond):
+            return True
+        if z3.is_false(cond):
+            return False
+        if not self.local and self.ndec >= len(self.decisions):
+            t0 = time.time()
+            ft, ff = self.feasible_pair(cond)
+            if not ff:
+                ob = self.run.obligation("safe", name, getattr(node, "lineno", None) or self.cur_line)
+                ob.paths += 1
+                ob.time += time.time() - t0
+                ob.backend["z3-inc"] = ob.backend.get("z3-inc", 0) + 1
+                self.decisions.append(True)
+                self.ndec += 1
+                self._add(cond)
+                return True
         return self.branch(cond)
 
     def branch(self, cond):
@@ -235,6 +295,8 @@ class PathCtx:
             n = SSeq.fresh(name, old.kind, ek)
             self._add(tz(n.length) >= 0)
             return n
+        if isinstance(old, str) or (isinstance(old, SOpaque) and old.tag == "str"):
+            return SOpaque("str")      # strings are opaque: nothing is known about their content anyway
         if old is None or isinstance(old, Poison):
             return Poison("assigned inside a loop that was cut at its invariant")
         if isinstance(old, (str, tuple, CDict, CList, SObj, SOpaque, SRange)):
@@ -455,6 +517,7 @@ def explore(run, on_path=None, max_paths=4000):
                 ctx.assume(C.requires(a))
             interp = Interp(ctx, mod, run.lib, run.contracts, target_contract=C, inline=C.inline)
             interp.self_qual = C.target if C.name == C.target else None
+            interp.root_node = fnode
             C.freeze(args)
             outcome, value = None, None
             try:
